@@ -14,6 +14,8 @@ enum Op {
     F(Vec<(u32, u32, usize)>),
     S(u32, u32, usize),
     R(u32, u32, u32, u32),
+    /// `range[(i, j)] = v` (relative position, `IndexMut<(usize, usize)>`)
+    X(u32, u32, usize),
 }
 
 impl Op {
@@ -30,6 +32,7 @@ impl Op {
             }
             Op::S(a, b, v) => format!("S,{a},{b},{v}"),
             Op::R(a, b, c, d) => format!("R,{a},{b},{c},{d}"),
+            Op::X(a, b, v) => format!("X,{a},{b},{v}"),
         }
     }
     fn parse(s: &str) -> Op {
@@ -40,6 +43,7 @@ impl Op {
             "E" => Op::E,
             "S" => Op::S(n(1) as u32, n(2) as u32, n(3) as usize),
             "R" => Op::R(n(1) as u32, n(2) as u32, n(3) as u32, n(4) as u32),
+            "X" => Op::X(n(1) as u32, n(2) as u32, n(3) as usize),
             "F" => Op::F((0..(p.len() - 1) / 3).map(|i| (n(1 + 3 * i) as u32, n(2 + 3 * i) as u32, n(3 + 3 * i) as usize)).collect()),
             x => panic!("bad op {x}"),
         }
@@ -89,14 +93,22 @@ fn dump_view(rect: Option<Rect>, val: &dyn Fn(u32, u32) -> usize) -> String {
         .map(|(i, j)| if *i < h && *j < w { val(s.0 + *i as u32, s.1 + *j as u32).to_string() } else { "-".into() })
         .collect();
     let ix: Vec<String> = g.iter().map(|x| if x == "-" { "!".to_string() } else { x.clone() }).collect();
+    // `range[i]` (a whole row): rows inside; a panic past the last row — except on the empty range, whose width is 0
+    let ir: Vec<String> = [0u64, h.saturating_sub(1), h, h + 3]
+        .iter()
+        .map(|i| if *i < h { format!("[{}]", rows[*i as usize].replace(',', ".")) } else if rect.is_none() { "[]".into() } else { "!".into() })
+        .collect();
+    let hd = if h > 0 { format!("[{}]", rows[0].replace(',', ".")) } else { "-".into() };
     format!(
-        "{se} H={h} W={w} ROWS={} CELLS={} USED={} GV={} G={} IX={}",
+        "{se} H={h} W={w} ROWS={} CELLS={} USED={} GV={} G={} IX={} IR={} HD={}",
         rows.join("/"),
         cells.join(","),
         used.join(","),
         gv.join(","),
         g.join(","),
-        ix.join(",")
+        ix.join(","),
+        ir.join(","),
+        hd
     )
 }
 
@@ -124,14 +136,21 @@ fn dump_impl(r: &Range<usize>) -> String {
     let rel = [(0usize, 0usize), (h.saturating_sub(1), w.saturating_sub(1)), (h, 0), (0, w)];
     let g: Vec<String> = rel.iter().map(|p| r.get(*p).map(|v| v.to_string()).unwrap_or("-".into())).collect();
     let ix: Vec<String> = rel.iter().map(|p| guarded(|| r[*p]).map(|v| v.to_string()).unwrap_or("!".into())).collect();
+    let ir: Vec<String> = [0usize, h.saturating_sub(1), h, h + 3]
+        .iter()
+        .map(|i| guarded(|| r[*i].iter().map(|v| v.to_string()).collect::<Vec<_>>().join(".")).map(|s| format!("[{s}]")).unwrap_or("!".into()))
+        .collect();
+    let hd = r.headers().map(|v| format!("[{}]", v.join("."))).unwrap_or("-".into());
     format!(
-        "{se} H={h} W={w} ROWS={} CELLS={} USED={} GV={} G={} IX={}",
+        "{se} H={h} W={w} ROWS={} CELLS={} USED={} GV={} G={} IX={} IR={} HD={}",
         rows.join("/"),
         cells.join(","),
         used.join(","),
         gv.join(","),
         g.join(","),
-        ix.join(",")
+        ix.join(","),
+        ir.join(","),
+        hd
     )
 }
 
@@ -200,6 +219,20 @@ impl Oracle {
                 self.map.retain(|k, _| k.0 >= *a && k.0 <= *c && k.1 >= *b && k.1 <= *d);
                 Some(false)
             }
+            Op::X(i, j, v) => {
+                // indexed assignment: inside the rectangle it overwrites that cell, outside it panics
+                let Some((s, e)) = self.rect else { return Some(true) };
+                if *i as u64 > (e.0 - s.0) as u64 || *j as u64 > (e.1 - s.1) as u64 {
+                    return Some(true);
+                }
+                let p = (s.0 + *i, s.1 + *j);
+                if *v == 0 {
+                    self.map.remove(&p);
+                } else {
+                    self.map.insert(p, *v);
+                }
+                Some(false)
+            }
             Op::F(cells) => {
                 if cells.is_empty() {
                     *self = Oracle::default();
@@ -239,6 +272,7 @@ fn apply_impl(r: &mut Range<usize>, op: &Op) -> Result<(), String> {
         Op::N(a, b, c, d) => next = Range::new((*a, *b), (*c, *d)),
         Op::S(a, b, v) => next.set_value((*a, *b), *v),
         Op::R(a, b, c, d) => next = next.range((*a, *b), (*c, *d)),
+        Op::X(i, j, v) => next[(*i as usize, *j as usize)] = *v,
         Op::F(cells) => next = Range::from_sparse(cells.iter().map(|(r, c, v)| Cell::new((*r, *c), *v)).collect()),
     });
     if res.is_ok() {
@@ -254,6 +288,7 @@ fn apply_inplace(r: &mut Range<usize>, op: &Op) -> Result<(), String> {
         Op::N(a, b, c, d) => *r = Range::new((*a, *b), (*c, *d)),
         Op::S(a, b, v) => r.set_value((*a, *b), *v),
         Op::R(a, b, c, d) => *r = r.range((*a, *b), (*c, *d)),
+        Op::X(i, j, v) => r[(*i as usize, *j as usize)] = *v,
         Op::F(cells) => *r = Range::from_sparse(cells.iter().map(|(r, c, v)| Cell::new((*r, *c), *v)).collect()),
     })
 }
@@ -266,6 +301,7 @@ fn sig_of(op: &Op, before: &Range<usize>) -> String {
         },
         Op::R(..) => format!("R:{}", if before.is_empty() { "empty-src" } else { "src" }),
         Op::N(..) => "N".into(),
+        Op::X(..) => "X".into(),
         Op::E => "E".into(),
         Op::F(cells) => {
             let sorted = cells.windows(2).all(|w| w[0].0 <= w[1].0);
@@ -344,6 +380,12 @@ fn gen_history(rng: &mut Rng) -> Vec<Op> {
                 ))
             };
             Op::F(cells)
+        } else if k < 36 {
+            // indexed assignment, mostly inside the rectangle, sometimes just outside (or on an empty range)
+            let (a, b, c, d) = cur.unwrap_or((0, 0, 0, 0));
+            let (hh, ww) = (c.saturating_sub(a) + 1, d.saturating_sub(b) + 1);
+            let (i, j) = if rng.chance(1, 6) { (rng.below(hh + 2), rng.below(ww + 2)) } else { (rng.below(hh), rng.below(ww)) };
+            Op::X(cl(i), cl(j), rng.below(5) as usize)
         } else if k < 75 {
             let (a, b, c, d) = cur.unwrap_or((r0, c0, r0, c0));
             let (r, col) = if rng.chance(1, 12) {
@@ -386,7 +428,7 @@ struct Outcome {
 fn area_after(r: &Range<usize>, op: &Op) -> u64 {
     let span = |a: u32, b: u32| (b as u64).saturating_sub(a as u64) + 1;
     match op {
-        Op::E => 0,
+        Op::E | Op::X(..) => 0,
         Op::N(a, b, c, d) | Op::R(a, b, c, d) => span(*a, *c).saturating_mul(span(*b, *d)),
         Op::S(row, col, _) => {
             let s = r.start().unwrap_or((0, 0));
@@ -824,10 +866,10 @@ fn main() {
     let mut drv = Driver::spawn(&args.driver);
     let mut rep = Report::new(
         "C05",
-        "random operation histories (1..16 ops: new/empty/from_sparse/set_value/range, coordinates from \
+        "random operation histories (1..16 ops: new/empty/from_sparse/set_value/range/indexed assignment, coordinates from \
          {0,1,2,5,255,65535,2^20-1,2^32-24}+small deltas, values 0..4; from_sparse lists random or a full small box \
          with repeated / dropped positions) after each op the full observable state \
-         (start,end,size,rows,cells,used_cells,get_value/get/Index probes) is compared impl vs Lean model vs \
+         (start,end,size,rows,cells,used_cells,get_value/get/Index probes, row indexing range[i], headers()) is compared impl vs Lean model vs \
          independent sparse-map oracle; on the final state of every history the three iterators are consumed from \
          BOTH ends by a random next/next_back pattern (impl vs Lean iterator model vs a double-ended queue over the \
          forward enumeration); plus LARGE rectangles (2^17 .. 2^18.3 cells quick, up to 2^21 thorough; new+fill or \
